@@ -408,7 +408,7 @@ def run(ctx):
     cases = _boundary_cases()
     ctx.sweep(cases, check_case, procs=4)
     ctx.extra["boundary_sweep"] = len(cases)
-    ctx.hyp(_strategy, check_case, max_examples=ctx.pick(4000, 150000))
+    ctx.hyp(_strategy, check_case, max_examples=ctx.pick(4000, 80000))
 
 
 def replay(case):
